@@ -308,6 +308,17 @@ def make_raw(state, raw_file_path: str=None) -> bytes:
     return b""
 
 
+def encode_bk_filename(state, bk_filename):
+    try:
+        return bk_filename.encode(state["compiler"].output_charset)
+    except UnicodeEncodeError as ex:
+        reports.error(
+            "invalid-character",
+            (state["insn"].ctx_start, state["insn"].ctx_end, f"Cannot encode the BK filename '{bk_filename}' using the selected output charset:\n{ex}\nYou can change the charset using --charset CLI argument.")
+        )
+        return b""
+
+
 def add_emitted_bk_wav(state, output_wav_path, bk_filename, file_format):
     insn_name = state["insn"].name
     if output_wav_path is not None:
@@ -322,7 +333,7 @@ def add_emitted_bk_wav(state, output_wav_path, bk_filename, file_format):
         bk_filename = write_path.split("/")[-1]
         if bk_filename.lower().endswith(".wav"):
             bk_filename = bk_filename[:-4]
-        encoded_bk_filename = bk_filename.encode(state["compiler"].output_charset)
+        encoded_bk_filename = encode_bk_filename(state, bk_filename)
         if len(encoded_bk_filename) > 16:
             reports.error(
                 "too-long-string",
@@ -330,7 +341,7 @@ def add_emitted_bk_wav(state, output_wav_path, bk_filename, file_format):
             )
             encoded_bk_filename = encoded_bk_filename[:16]
     else:
-        encoded_bk_filename = bk_filename.encode(state["compiler"].output_charset)
+        encoded_bk_filename = encode_bk_filename(state, bk_filename)
         if len(encoded_bk_filename) > 16:
             reports.error(
                 "too-long-string",
